@@ -223,7 +223,12 @@ func (g *genState) schemaC03(idx int) schemaSpec {
 	degree := []int{3, 4, 8, 32, 64}[r.IntN(5)]
 	search := []int{25, 30, 75}[r.IntN(3)]
 	alpha := []float32{1.1, 1.2, 1.5}[r.IntN(3)]
-	return schemaSpec{{path: "vec", kind: ixVamana, dim: dim, metric: m, search: search, degree: degree, alpha: alpha, q: q},
+	vpath := "vec"
+	if (idx/3)%5 == 0 && idx%2 == 0 {
+		// the vector lives inside a nested object: an update reaches it through the parent key
+		vpath = "nested.v"
+	}
+	return schemaSpec{{path: vpath, kind: ixVamana, dim: dim, metric: m, search: search, degree: degree, alpha: alpha, q: q},
 		{path: "i", kind: ixInt}, {path: "tags", kind: ixStrArr, caseSens: true}}
 }
 
@@ -819,7 +824,9 @@ func (g *genState) genBatch(step int) batchSpec {
 			id := live[r.IntN(len(live))]
 			top := strings.SplitN(ix.path, ".", 2)[0]
 			del := pointSpec{id: id, doc: Val{K: kMap, M: []KV{{top, vStr("_delete")}}}}
-			set := pointSpec{id: id, doc: Val{K: kMap, M: []KV{{top, vVec(g.genVec(ix.dim))}}}}
+			setDoc := Val{K: kMap}
+			setPath(&setDoc, ix.path, vVec(g.genVec(ix.dim)))
+			set := pointSpec{id: id, doc: setDoc}
 			var keep []pointSpec
 			for _, p := range b.points {
 				if p.id != id {
